@@ -89,15 +89,19 @@ pub fn write_shards(dir: &Path, module: &str, runner: &str, cases: &[String], sh
             let _ = fs::remove_file(e.path());
         }
     }
-    // at least `shards` files, and never more than 40 cases in one (coqc time grows with the file)
+    // at least `shards` files, never more than 40 cases in one (coqc time grows with the file) and
+    // never much more than MAX_BYTES of case text in one (coqc needs about 1.3 GB per MB of terms)
+    const MAX_BYTES: usize = 800_000;
     let shards = shards.max((cases.len() + 39) / 40).max(1).min(cases.len().max(1));
     let per = (cases.len() + shards - 1) / shards.max(1);
     let mut written = 0;
-    for s in 0..shards {
-        let lo = s * per;
-        let hi = ((s + 1) * per).min(cases.len());
-        if lo >= hi {
-            break;
+    let mut lo = 0usize;
+    while lo < cases.len() {
+        let mut hi = lo;
+        let mut bytes = 0usize;
+        while hi < cases.len() && hi - lo < per && (hi == lo || bytes + cases[hi].len() <= MAX_BYTES) {
+            bytes += cases[hi].len();
+            hi += 1;
         }
         let mut out = String::new();
         out.push_str("From IweV Require Import Str Harness ");
@@ -112,8 +116,9 @@ pub fn write_shards(dir: &Path, module: &str, runner: &str, cases: &[String], sh
         }
         out.push_str("\n].\n");
         let _ = write!(out, "Eval vm_compute in (report ({}) cases).\n", runner);
-        fs::write(dir.join(format!("cases_{:03}.v", s)), out).unwrap();
+        fs::write(dir.join(format!("cases_{:03}.v", written)), out).unwrap();
         written += 1;
+        lo = hi;
     }
     written
 }
